@@ -526,6 +526,32 @@ def inForceGroup (m : Mgr) (g : String) (p : Path) : ORes × Nat :=
 def usageAt (t : Tree) (p : Path) (k : String) : Int :=
   match aget t p with | some n => (n.usage.getD []).getD k | none => 0
 
+/-! ### hypotheses of the partial reload statement (decidable; on the active configuration maps of the manager and the
+    maps the new configuration is parsed into) -/
+
+/-- the maps a configuration is parsed into (they do not depend on the trackers) -/
+def parseCfg (c : Cfg) : NewCfg := (processConfig {} c).2
+
+/-- excludes F17: no queue loses its wildcard user limit while users are named on it before AND after the reload -/
+def noWildcardDropBesideNamed (m : Mgr) (n : NewCfg) : Bool :=
+  m.userWild.all (fun e => ahas n.userWild e.1 || !(ahas m.userLimits e.1 && ahas n.userLimits e.1))
+
+/-- excludes F18 / group-lost: nobody loses the limit of a queue and keeps (or gets) a limit on that queue's subtree -/
+def noDropAboveKept (old new : List (Path × List (String × Limit))) : Bool :=
+  (dropped old new).all (fun d => new.all (fun e => !(d.1.isPrefixOf e.1 && ahas e.2 d.2)))
+
+def nodupB : List String → Bool
+  | [] => true
+  | a :: t => !t.contains a && nodupB t
+
+/-- at most one queue per user / group loses its limit (one resetUserEarlierUsage / resetGroupEarlierUsage per tracker: the
+    iteration order of the old limit map cannot matter) -/
+def singleDrop (old new : List (Path × List (String × Limit))) : Bool := nodupB ((dropped old new).map (·.2))
+
+/-- every `limits:` entry sets a limit and every queue path starts at the root (configs.Validate) -/
+def properCfgB (c : Cfg) : Bool :=
+  c.all (fun q => q.1.take 1 == rootPath && q.2.all (fun l => !(l.maxApps == 0 && isZero l.maxRes)))
+
 /-! ### application → group links -/
 
 /-- appGroupTrackers[app] of user `u`: `none` = not resolved yet, `some none` = resolved to "no group" -/
@@ -607,10 +633,25 @@ def mOpOk (L : List (String × Alloc)) : Op → Prop
       (rm = true → ∀ b ∈ userAllocs (L.erase (u, ⟨app, q, r⟩)) u, b.app ≠ app)
   | _ => True
 
+/-- the live allocations of the applications linked to group `g` -/
+def groupAllocs (m : Mgr) (L : List (String × Alloc)) (g : String) : List Alloc :=
+  (L.filter (fun e => groupForApp m e.1 e.2.app == g)).map (·.2)
+
+/-- the contract for the group statement: as `mOpOk`, application ids are unique across users (as in the core), and no
+    configuration reload -/
+def gOpOk (L : List (String × Alloc)) : Op → Prop
+  | .conf _ => False
+  | .inc q app r u ugs => mOpOk L (.inc q app r u ugs) ∧ ∀ e ∈ L, e.2.app = app → e.1 = u
+  | op => mOpOk L op
+
 def mStep (s : Mgr × List (String × Alloc)) (op : Op) : Mgr × List (String × Alloc) := (step s.1 op, mLedger s.2 op)
 
 def mHistOk : Mgr × List (String × Alloc) → List Op → Prop
   | _, [] => True
   | s, op :: rest => mOpOk s.2 op ∧ mHistOk (mStep s op) rest
+
+def gHistOk : Mgr × List (String × Alloc) → List Op → Prop
+  | _, [] => True
+  | s, op :: rest => gOpOk s.2 op ∧ gHistOk (mStep s op) rest
 
 end Yk.Ugm
